@@ -12,6 +12,8 @@ CONSTANTS
   AnyMaxHist = 4
   AnyMaxLen = 2
   AnyMaxSteps = 8
+  AnyFaults = TRUE
+  MaxFaults = 1
 CONSTRAINT AnyConstraint
 INVARIANTS TypeOK DisciplineSafe
 CHECK_DEADLOCK FALSE
